@@ -192,60 +192,93 @@ theorem assertValidRename_read (rn : List (Key × Key)) (m : Mgr) :
       · exact ⟨rfl, by simp⟩
       · exact ⟨rfl, by simp⟩
 
-/-- `image(trans, source, rename, qvars, forall)`: ANY arguments, reordering not enabled -/
-theorem image_kl (ext : Nat → Nat) (t s : Int) (rn : List (Key × Key)) (q : List Key) (fa : Bool)
+theorem supportF_noNR : ∀ (f : Nat) (t : Tbl) (u : Int) (s : List Nat × List Nat),
+    supportF f t u s ≠ .error .needsReordering := by
+  intro f
+  induction f with
+  | zero => intro t u s; obtain ⟨l, n⟩ := s; simp [supportF]
+  | succ f ih =>
+    intro t u s
+    obtain ⟨l, n⟩ := s
+    unfold supportF
+    split
+    · simp
+    dsimp only
+    split
+    · simp
+    split
+    · simp
+    split
+    · simp
+    split
+    · simp
+    split
+    · next e heq => intro h; cases h; exact ih _ _ _ heq
+    · exact ih _ _ _
+
+theorem supportLevels_noNR (t : Tbl) (u : Int) : supportLevels t u ≠ .error .needsReordering := by
+  unfold supportLevels
+  split
+  · next e heq => intro h; cases h; exact supportF_noNR _ _ _ _ heq
+  · simp
+
+/-- the decorated body `_image_of`: ANY arguments, reordering not enabled -/
+theorem imageBody_kl (ext : Nat → Nat) (t s : Int) (rn : List (Key × Key)) (q : List Key) (fa : Bool)
     (m : Mgr) (hI : Inv m) (hL : Lite ext m) :
-    Kept m (image t s rn q fa m).2 ∧ Lite ext (image t s rn q fa m).2 := by
-  have base : ∀ (r : Except Err Int), Kept m ((r, m) : Except Err Int × Mgr).2 ∧
-      Lite ext ((r, m) : Except Err Int × Mgr).2 := fun _ => ⟨Kept.refl hI, hL⟩
-  unfold image
+    Kept m (imageBody t s rn q fa m).2 ∧ LiteOut ext (imageBody t s rn q fa m) := by
+  have base : ∀ (r : Except Err Int), r ≠ .error .needsReordering →
+      Kept m ((r, m) : Except Err Int × Mgr).2 ∧
+      LiteOut ext ((r, m) : Except Err Int × Mgr) := fun _ hr => ⟨Kept.refl hI, hL, hr⟩
+  unfold imageBody
   cases hq : mapToLevelE m.tbl q with
-  | error e => exact base _
+  | error e => exact base _ (fun h => mapToLevelE_noNR m.tbl q (by rw [hq]; simpa using h))
   | ok lv =>
     simp only
     split
-    · exact base _
-    obtain ⟨ha, _⟩ := adjacentWarn_read (resolveRename m.tbl rn) m
-    generalize adjacentWarn (resolveRename m.tbl rn) m = r1 at ha
+    · exact base _ (by simp)
+    obtain ⟨ha, hn⟩ := adjacentWarn_read (resolveRename m.tbl rn) m
+    generalize adjacentWarn (resolveRename m.tbl rn) m = r1 at ha hn
     obtain ⟨x1, m1⟩ := r1
     simp only at ha
     subst ha
     cases x1 with
-    | error e => exact base _
+    | error e => exact base _ (by simpa using hn)
     | ok _ =>
       simp only
       split
-      · exact base _
+      · next e heq => exact base _ (fun h => supportLevels_noNR _ _ (by rw [heq]; simpa using h))
       split
-      · exact base _
+      · next e heq => exact base _ (fun h => supportLevels_noNR _ _ (by rw [heq]; simpa using h))
       split
-      · exact base _
+      · exact base _ (by simp)
       obtain ⟨k, l⟩ := imageF_kl ext (some (intPairs (resolveRename m1.tbl rn))) none
         (badKeys (resolveRename m1.tbl rn)) [] lv fa (2 * m1.nvars + 4) t s {} m1 hI hL
       generalize imageF (some (intPairs (resolveRename m1.tbl rn))) none
         (badKeys (resolveRename m1.tbl rn)) [] lv fa (2 * m1.nvars + 4) t s {} m1 = res at k l ⊢
       obtain ⟨r, m2⟩ := res
       cases r with
-      | error e => simp only; exact ⟨k, l.1⟩
-      | ok rc => simp only; exact ⟨k, l.1⟩
+      | error e => simp only; exact ⟨k, l.reErr⟩
+      | ok rc => simp only; exact ⟨k, l.1, by simp⟩
 
-theorem preimage_kl (ext : Nat → Nat) (t s : Int) (rn : List (Key × Key)) (q : List Key) (fa : Bool)
-    (m : Mgr) (hI : Inv m) (hL : Lite ext m) :
-    Kept m (preimage t s rn q fa m).2 ∧ Lite ext (preimage t s rn q fa m).2 := by
-  have base : ∀ (r : Except Err Int), Kept m ((r, m) : Except Err Int × Mgr).2 ∧
-      Lite ext ((r, m) : Except Err Int × Mgr).2 := fun _ => ⟨Kept.refl hI, hL⟩
-  unfold preimage
+/-- the decorated body `_preimage_of`: ANY arguments, reordering not enabled -/
+theorem preimageBody_kl (ext : Nat → Nat) (t s : Int) (rn : List (Key × Key)) (q : List Key)
+    (fa : Bool) (m : Mgr) (hI : Inv m) (hL : Lite ext m) :
+    Kept m (preimageBody t s rn q fa m).2 ∧ LiteOut ext (preimageBody t s rn q fa m) := by
+  have base : ∀ (r : Except Err Int), r ≠ .error .needsReordering →
+      Kept m ((r, m) : Except Err Int × Mgr).2 ∧
+      LiteOut ext ((r, m) : Except Err Int × Mgr) := fun _ hr => ⟨Kept.refl hI, hL, hr⟩
+  unfold preimageBody
   cases hq : mapToLevelE m.tbl q with
-  | error e => exact base _
+  | error e => exact base _ (fun h => mapToLevelE_noNR m.tbl q (by rw [hq]; simpa using h))
   | ok lv =>
     simp only
-    obtain ⟨ha, _⟩ := assertValidRename_read (resolveRename m.tbl rn) m
-    generalize assertValidRename (resolveRename m.tbl rn) m = r1 at ha
+    obtain ⟨ha, hn⟩ := assertValidRename_read (resolveRename m.tbl rn) m
+    generalize assertValidRename (resolveRename m.tbl rn) m = r1 at ha hn
     obtain ⟨x1, m1⟩ := r1
     simp only at ha
     subst ha
     cases x1 with
-    | error e => exact base _
+    | error e => exact base _ (by simpa using hn)
     | ok _ =>
       simp only
       obtain ⟨k, l⟩ := imageF_kl ext none (some (intPairs (resolveRename m1.tbl rn))) []
@@ -254,8 +287,55 @@ theorem preimage_kl (ext : Nat → Nat) (t s : Int) (rn : List (Key × Key)) (q 
         (badKeys (resolveRename m1.tbl rn)) lv fa (2 * m1.nvars + 4) t s {} m1 = res at k l ⊢
       obtain ⟨r, m2⟩ := res
       cases r with
-      | error e => simp only; exact ⟨k, l.1⟩
-      | ok rc => simp only; exact ⟨k, l.1⟩
+      | error e =>
+        simp only
+        refine ⟨k, l.1, ?_⟩
+        have := l.2
+        by_cases hf : e = .fuel
+        · simp [hf]
+        · simpa [hf] using this
+      | ok rc => simp only; exact ⟨k, l.1, by simp⟩
+
+/-- the decorator around a body that keeps the invariant and never raises the signal (reordering
+not enabled) -/
+theorem tryToReorder_kl {α : Type} (ext : Nat → Nat) (f : M α) (m : Mgr)
+    (h : Kept { m with ctx := true } (f { m with ctx := true }).2 ∧
+      LiteOut ext (f { m with ctx := true })) :
+    Kept m (tryToReorder f m).2 ∧ Lite ext (tryToReorder f m).2 := by
+  obtain ⟨k, l⟩ := h
+  generalize hres : f { m with ctx := true } = res at k l
+  obtain ⟨r, m1⟩ := res
+  have hk : Kept m { m1 with ctx := m.ctx } := by
+    have k' : Kept { m with ctx := true } m1 := k
+    exact ⟨k'.inv.setCtx _, k'.ext,
+      ⟨k'.frame.vars, k'.frame.l2v, k'.frame.lastLen, rfl, k'.frame.sched, k'.frame.roots⟩⟩
+  have hl : Lite ext { m1 with ctx := m.ctx } := l.1.setCtx _
+  cases r with
+  | ok a =>
+    rw [tryToReorder_ok f m a m1 hres]
+    exact ⟨hk, hl⟩
+  | error e =>
+    have hne : e ≠ .needsReordering := fun hh => l.2 (by rw [hh])
+    rw [tryToReorder_err f m e m1 hres hne]
+    exact ⟨hk, hl⟩
+
+/-- `image(trans, source, rename, qvars, forall)`: ANY arguments, reordering not enabled -/
+theorem image_kl (ext : Nat → Nat) (t s : Int) (rn : List (Key × Key)) (q : List Key) (fa : Bool)
+    (m : Mgr) (hI : Inv m) (hL : Lite ext m) :
+    Kept m (image t s rn q fa m).2 ∧ Lite ext (image t s rn q fa m).2 := by
+  unfold image
+  split
+  · exact ⟨Kept.refl hI, hL⟩
+  · exact tryToReorder_kl ext _ m (imageBody_kl ext t s _ _ fa _ (hI.setCtx true) (hL.setCtx true))
+
+theorem preimage_kl (ext : Nat → Nat) (t s : Int) (rn : List (Key × Key)) (q : List Key) (fa : Bool)
+    (m : Mgr) (hI : Inv m) (hL : Lite ext m) :
+    Kept m (preimage t s rn q fa m).2 ∧ Lite ext (preimage t s rn q fa m).2 := by
+  unfold preimage
+  split
+  · exact ⟨Kept.refl hI, hL⟩
+  · exact tryToReorder_kl ext _ m
+      (preimageBody_kl ext t s _ _ fa _ (hI.setCtx true) (hL.setCtx true))
 
 /-- packaging of `Kept` + `Lite` obtained together -/
 theorem keepsAtOff_of_kl {α : Type} {op : M α} {m : Mgr}
